@@ -69,23 +69,32 @@ def run(prog: Program, ctx: Ctx) -> None:  # noqa: PLR0912,PLR0915
                    f"{'is' if SPHINX_READERS[row] in readers else 'is not'} registered", f"{sm.relpath}:{getattr(ft, 'lineno', 0)}")
 
     # ------------------------------------------------------------------ R2 field shadowing
-    ctx.rule("R2", "Sphinx fields are matched with startswith in table order: no field name of an earlier entry may be a proper prefix of a name in a later "
-                   "entry (`:vartype` must be tried before `:var`)")
+    ctx.rule("R2", "every Sphinx field name reaches its own reader: with the table of field types evaluated and `matches` applied in table order to the "
+                   "line `:<name> x: text`, the first entry that accepts the line is the one that lists the name (`:vartype` is not swallowed by `:var`)")
     it = Interp(prog)
-    entries = []
-    if isinstance(ft, ast.List):
-        for e in ft.elts:
-            if isinstance(e, ast.Call) and e.args:
-                names = it.global_name(sm, unparse(e.args[0])) if isinstance(e.args[0], ast.Name) else None
-                entries.append((unparse(e.args[0]), set(names or ()), unparse(e.args[1]) if len(e.args) > 1 else ""))
-    ctx.expect_min("R2", len(entries), 7)
-    for i, (n1, s1, _r1) in enumerate(entries):
-        for n2, s2, _r2 in entries[i + 1:]:
-            clash = sorted((a, b) for a in s1 for b in s2 if b.startswith(a) and a != b)
-            ctx.ob("R2", f"prefix|{n1}<{n2}", not clash, f"{n1} is tried before {n2}" + ("" if not clash else f": `:{clash[0][0]}` would swallow `:{clash[0][1]}` fields"),
-                   f"{sm.relpath}:{getattr(ft, 'lineno', 0)}", nontrivial=bool(clash) or any(b.startswith(a[:3]) for a in s1 for b in s2))
     mt = prog.function(f"{S}._FieldType.matches")
-    ctx.ob("R2", key(mt, "startswith"), "line.startswith(f':{name}')" in ast.unparse(mt.node), "field matching is by `:name` prefix (which is why the order matters)", where(mt))
+    try:
+        table = list(it.global_name(sm, "_field_types"))
+    except Raised as r:
+        raise AnalysisError(f"C13-R2: evaluating _field_types raises {r.exc}") from None
+    n_names = 0
+    for i, entry in enumerate(table):
+        names = sorted(it.getattr(entry, "names")) if isinstance(entry, Obj) else []
+        for nm in names:
+            n_names += 1
+            line = f":{nm} x: text"
+            first = None
+            for j, other in enumerate(table):
+                try:
+                    if it.truth(it.call(mt, other, line)):
+                        first = j
+                        break
+                except Raised as r:
+                    first = f"raises {r.exc}"
+                    break
+            ctx.ob("R2", f"field|{nm}", first == i, f"`{line}` is accepted first by entry {first} of the table; `{nm}` is listed by entry {i}"
+                   + ("" if first == i else ": the field is read by another reader (or by none)"), where(mt), nontrivial=True)
+    ctx.expect_min("R2", n_names, 15)
 
     # ------------------------------------------------------------------ R3 generator slots
     ctx.rule("R3", "annotation fallback from the signature: Returns/Yields/Receives read slot 2/0/1 of Generator[Y, S, R]; Yields reads Iterator's only slot; "
